@@ -570,8 +570,14 @@ const c19Remote = "198.51.100.9:51234"
 // c19Feed pushes the stream through a real clientHelloConn, reading the way crypto/tls does
 // (a Read per delivery), and returns the listener.
 func c19Feed(stream []byte, cuts []int) *httpserver.VerifHelloListener {
-	l := httpserver.VerifNewHelloListener()
-	hc := l.Wrap(&c19Conn{segs: c19Cut(stream, cuts), addr: c19Remote})
+	// the real tlsHelloListener.Accept (bufpool.Get and all); the harness plays crypto/tls and calls
+	// Read on the clientHelloConn under the *tls.Conn that Accept returns
+	ln, l := httpserver.VerifTLSHelloListener(&c19QueueListener{queue: []net.Conn{&c19Conn{segs: c19Cut(stream, cuts), addr: c19Remote}}}, &tls.Config{})
+	c, err := ln.Accept()
+	if err != nil {
+		panic("verif: accept: " + err.Error())
+	}
+	hc := c.(*tls.Conn).NetConn()
 	buf := make([]byte, 70000)
 	for {
 		if _, err := hc.Read(buf); err != nil {
